@@ -591,4 +591,117 @@ theorem pipe_progress : ∀ (p : Pipe), capsPos p = true → allEmpty p = false 
     · obtain ⟨i, hi⟩ := pipe_progress ((b', c') :: rest) hc' (by simpa using hd)
       exact ⟨i + 1, by simp only [move]; cases hm : move ((b', c') :: rest) i false <;> simp_all⟩
 
+/-! ### networks of bounded buffers -/
+
+theorem getBuf_set_ne (s : NSt) (i j : Nat) (t : List Nat) (h : i ≠ j) : getBuf (s.set i t) j = getBuf s j := by
+  simp [getBuf, List.getElem?_set_ne h]
+
+theorem getBuf_set_self (s : NSt) (i : Nat) (t : List Nat) (h : i < s.length) : getBuf (s.set i t) i = t := by
+  simp [getBuf, h]
+
+theorem getBuf_ge (s : NSt) (i : Nat) (h : s.length ≤ i) : getBuf s i = [] := by
+  simp [getBuf, List.getElem?_eq_none h]
+
+/-- the most downstream non-empty node -/
+theorem last_nonempty : ∀ (s : NSt), (∃ i, getBuf s i ≠ []) →
+    ∃ i, getBuf s i ≠ [] ∧ ∀ j, i < j → getBuf s j = []
+  | [], ⟨i, hi⟩ => by simp [getBuf] at hi
+  | b :: rest, ⟨i, hi⟩ => by
+    by_cases hr : ∃ k, getBuf rest k ≠ []
+    · obtain ⟨k, hk, hlast⟩ := last_nonempty rest hr
+      refine ⟨k + 1, by simpa [getBuf] using hk, ?_⟩
+      intro j hj
+      cases j with
+      | zero => omega
+      | succ j => have := hlast j (by omega); simpa [getBuf] using this
+    · have hall : ∀ k, getBuf rest k = [] := fun k => Classical.byContradiction fun h => hr ⟨k, h⟩
+      cases i with
+      | zero =>
+        refine ⟨0, hi, ?_⟩
+        intro j hj
+        cases j with
+        | zero => omega
+        | succ j => have := hall j; simpa [getBuf] using this
+      | succ i => exact absurd (by simpa [getBuf] using hall i) hi
+
+/-- replacing the buffer of node `i`: the measure changes by the length difference times the node's weight -/
+theorem measureN_set : ∀ (s : NSt) (i : Nat) (t : List Nat), i < s.length →
+    measureN (s.set i t) + (getBuf s i).length * (s.length - i) = measureN s + t.length * (s.length - i)
+  | [], i, t, h => by simp at h
+  | b :: rest, 0, t, _ => by
+    simp only [List.set_cons_zero, measureN, getBuf, List.getElem?_cons_zero, Option.getD_some, List.length_cons,
+      Nat.sub_zero]
+    omega
+  | b :: rest, i + 1, t, h => by
+    have ih := measureN_set rest i t (by simpa using h)
+    simp only [List.set_cons_succ, measureN, List.length_set, List.length_cons]
+    have hg : getBuf (b :: rest) (i + 1) = getBuf rest i := by simp [getBuf]
+    rw [hg]
+    have : rest.length + 1 - (i + 1) = rest.length - i := by omega
+    rw [this]
+    omega
+
+/-- **Progress in a network of bounded buffers.**  If every hand-over goes downstream and every buffer can hold an item,
+then in every state with an item anywhere some node is enabled, and its move strictly decreases the measure. -/
+theorem net_progress (net : Net) (s : NSt) (hwf : net.WF s.length) (hne : ∃ i, getBuf s i ≠ []) :
+    ∃ i s', moveN net s i = some s' ∧ s'.length = s.length ∧ measureN s' < measureN s := by
+  obtain ⟨i, hi, hlast⟩ := last_nonempty s hne
+  have hil : i < s.length := by
+    apply Classical.byContradiction
+    intro h
+    exact hi (getBuf_ge s i (by omega))
+  cases hb : getBuf s i with
+  | nil => exact absurd hb hi
+  | cons x t =>
+    have hm1 := measureN_set s i t hil
+    rw [hb] at hm1
+    simp only [List.length_cons] at hm1
+    have hpos : 0 < s.length - i := by omega
+    cases hr : net.route i x with
+    | none =>
+      refine ⟨i, s.set i t, by simp [moveN, hb, hr], by simp, ?_⟩
+      have : (t.length + 1) * (s.length - i) = t.length * (s.length - i) + (s.length - i) := by
+        rw [Nat.add_mul, Nat.one_mul]
+      omega
+    | some j =>
+      obtain ⟨hij, hjn⟩ := hwf.1 i x j hr
+      have hje : getBuf s j = [] := hlast j hij
+      have hcap := hwf.2 j hjn
+      refine ⟨i, (s.set i t).set j [x], ?_, by simp, ?_⟩
+      · have hcap' : ¬ net.caps[j]?.getD 0 = 0 := by
+          have : net.caps.getD j 0 = net.caps[j]?.getD 0 := by simp [List.getD]
+          omega
+        simp [moveN, hb, hr, hje, hcap']
+      · have hm2 := measureN_set (s.set i t) j [x] (by simpa using hjn)
+        rw [getBuf_set_ne s i j t (by omega), hje] at hm2
+        simp only [List.length_nil, Nat.zero_mul, Nat.add_zero, List.length_set, List.length_cons, Nat.one_mul] at hm2
+        have : (t.length + 1) * (s.length - i) = t.length * (s.length - i) + (s.length - i) := by
+          rw [Nat.add_mul, Nat.one_mul]
+        omega
+
+theorem archiverNet_wf : archiverNet.WF 16 := by
+  constructor
+  · intro i x j h
+    simp only [archiverNet] at h
+    split at h
+    · cases h; omega
+    split at h
+    · split at h <;> (cases h; omega)
+    split at h
+    · cases h; omega
+    split at h
+    · split at h
+      · cases h; omega
+      · cases h
+    split at h
+    · cases h
+    split at h
+    · split at h
+      · cases h
+      · cases h; omega
+    · cases h
+  · intro j hj
+    have : ∀ k : Fin 16, 0 < archiverNet.caps.getD k.val 0 := by decide
+    exact this ⟨j, hj⟩
+
 end Rustic.Streamer
